@@ -156,13 +156,49 @@ json_character(EscapeChar) -->
         json_hex(H4),
         { (   nonvar(H1) ->
               EscapeCharCode is H1 * 16^3 + H2 * 16^2 + H3 * 16 + H4,
+              \+ surrogate_code(EscapeCharCode),
               char_code(EscapeChar, EscapeCharCode)
           ;   char_code(EscapeChar, EscapeCharCode),
+              EscapeCharCode < 0x10000,
               H1 is (EscapeCharCode // 16^3) mod 16,
               H2 is (EscapeCharCode // 16^2) mod 16,
               H3 is (EscapeCharCode // 16^1) mod 16,
               H4 is (EscapeCharCode // 16^0) mod 16
           ) }.
+% A character outside the basic multilingual plane is escaped as a UTF-16 surrogate pair (RFC 8259, section 7).
+json_character(EscapeChar) -->
+        "\\u",
+        json_hex(H1),
+        json_hex(H2),
+        json_hex(H3),
+        json_hex(H4),
+        "\\u",
+        json_hex(L1),
+        json_hex(L2),
+        json_hex(L3),
+        json_hex(L4),
+        { (   nonvar(H1) ->
+              High is H1 * 16^3 + H2 * 16^2 + H3 * 16 + H4,
+              High >= 0xD800, High =< 0xDBFF,
+              Low is L1 * 16^3 + L2 * 16^2 + L3 * 16 + L4,
+              Low >= 0xDC00, Low =< 0xDFFF,
+              EscapeCharCode is 0x10000 + (High - 0xD800) * 0x400 + (Low - 0xDC00),
+              char_code(EscapeChar, EscapeCharCode)
+          ;   char_code(EscapeChar, EscapeCharCode),
+              EscapeCharCode >= 0x10000,
+              High is 0xD800 + (EscapeCharCode - 0x10000) // 0x400,
+              Low is 0xDC00 + (EscapeCharCode - 0x10000) mod 0x400,
+              H1 is (High // 16^3) mod 16,
+              H2 is (High // 16^2) mod 16,
+              H3 is (High // 16^1) mod 16,
+              H4 is (High // 16^0) mod 16,
+              L1 is (Low // 16^3) mod 16,
+              L2 is (Low // 16^2) mod 16,
+              L3 is (Low // 16^1) mod 16,
+              L4 is (Low // 16^0) mod 16
+          ) }.
+
+surrogate_code(Code) :- Code >= 0xD800, Code =< 0xDFFF.
 
 json_hex(Digit) --> json_digit(Digit).
 json_hex(10)    --> "a".
